@@ -518,4 +518,49 @@ Proof.
     + right. exists f. split; [exact Hf|]. rewrite E, H. discriminate.
 Qed.
 
+
+(* ---- 7 KnownTypeNames ---- *)
+Definition unknown_tc (i : item) : Prop :=
+  match i with IInline _ _ _ (Some tc) => known S (snd tc) = false | _ => False end.
+Definition Violates_known_type_names : Prop :=
+  (exists o v, In o (w_ops W) /\ In v (wo_vars o) /\ known S (snd (type_named (wv_type v))) = false) \/
+  (exists i, In i (flat_map (op_items S) (w_ops W)) /\ unknown_tc i) \/
+  (exists f, In f (w_frags W) /\
+     (known S (wf_cond f) = false \/ exists i, In i (frag_items S f) /\ unknown_tc i)).
+
+Lemma unknown_named_iff : forall p, unknown_named S p <> [] <-> known S (snd p) = false.
+Proof.
+  intros p. unfold unknown_named. destruct (known S (snd p)); split; intro H;
+    try contradiction; try discriminate; reflexivity.
+Qed.
+
+Lemma inline_tc_iff : forall l,
+  flat_map (fun i => match i with IInline _ _ _ (Some tc) => unknown_named S tc | _ => [] end) l <> []
+  <-> exists i, In i l /\ unknown_tc i.
+Proof.
+  intro l. rewrite flat_map_nonempty. split; intros [i [Hi H]]; exists i; (split; [exact Hi|]);
+    destruct i as [| |pt t id [tc|]| | |]; simpl in *; try contradiction; apply unknown_named_iff; exact H.
+Qed.
+
+Lemma known_type_names_iff : rule_known_type_names S W <> [] <-> Violates_known_type_names.
+Proof.
+  unfold rule_known_type_names, Violates_known_type_names.
+  rewrite !app_nonempty, inline_tc_iff. rewrite !flat_map_nonempty.
+  split.
+  - intros [[o [Ho H]]|[H|[f [Hf H]]]].
+    + left. apply flat_map_nonempty in H. destruct H as [v [Hv H]]. exists o, v.
+      split; [exact Ho|]. split; [exact Hv|]. apply unknown_named_iff in H. exact H.
+    + right. left. exact H.
+    + right. right. exists f. split; [exact Hf|]. apply app_nonempty in H. destruct H as [H|H].
+      * left. apply unknown_named_iff in H. exact H.
+      * right. apply inline_tc_iff. exact H.
+  - intros [[o [v [Ho [Hv H]]]]|[H|[f [Hf H]]]].
+    + left. exists o. split; [exact Ho|]. apply flat_map_nonempty. exists v. split; [exact Hv|].
+      apply unknown_named_iff. exact H.
+    + right. left. exact H.
+    + right. right. exists f. split; [exact Hf|]. apply app_nonempty. destruct H as [H|H].
+      * left. apply (unknown_named_iff (wf_tcid f, wf_cond f)). exact H.
+      * right. apply inline_tc_iff. exact H.
+Qed.
+
 End R.
